@@ -481,6 +481,78 @@ def lrefine_steps(ctx):
         print("GROWTH-MISMATCH module=LRefineSteps %s" % m)
     return mism
 
+
+def _cl_proj(loc):
+    if "clusters" in loc and "cluster_index" in loc:
+        d = {"labels": [int(v) for v in loc["clusters"]], "anchor": 0, "size": 0, "win": 0}
+        if "cluster_point_idx" in loc:
+            d["anchor"] = int(loc["cluster_point_idx"]) + 1
+        if "cluster_size" in loc:
+            d["size"] = int(loc["cluster_size"])
+        if "idx" in loc:
+            d["win"] = int(loc["idx"]) + 1
+        return d
+    return None
+
+
+def _clustering_steps_record(item):
+    import random
+    import kneeliverse.clustering as cl
+    from harness import monitor
+    cid, seed = item
+    rng = random.Random(seed)
+    n = rng.randint(2, 14)
+    xs = sorted(rng.sample(range(0, 41), n))
+    den = rng.choice([1, 2, 3, 4, 5, 6, 8, 10])
+    num = rng.randint(1, den)
+    if rng.random() < 0.4 and n >= 3:            # an exact tie of some gap with the threshold: gap / range = num / den
+        import math
+        g = rng.choice([xs[j + 1] - xs[j] for j in range(n - 1)] + [xs[j + 2] - xs[j] for j in range(n - 2)])
+        L = xs[-1] - xs[0]
+        k = math.gcd(g, L)
+        num, den = g // k, L // k
+    link = rng.choice(["single", "complete", "centroid", "average"])
+    fn = getattr(cl, link + "_linkage")
+    P = np.column_stack([np.array(xs, dtype=float), np.zeros(n)])
+    out, val, cnt = monitor.call(fn, (P, num / den), {}, budget=monitor.quad(n, 64), wall=30, per={fn.__name__: 8 * n + 64}, snap={fn.__name__: _cl_proj})
+    snaps = list(monitor._state["snaps"])
+    if out != "returned":
+        return None
+    return {"id": cid, "x": xs, "tnum": num, "tden": den, "link": link, "events": snaps, "final": [int(v) for v in np.asarray(val).tolist()],
+            "_backedges": cnt.get(fn.__name__, 0)}
+
+
+def clustering_steps(ctx):
+    """Trace_ClusteringSteps.tla: action-level trace validation of the four linkage loops against Clustering.tla's own actions."""
+    items = [("cs%d" % k, ctx.seed * 9001 + k) for k in range(400 if ctx.quick else 4000)]
+    rec = [r for r in par.pmap(_clustering_steps_record, items) if r is not None]
+    anchored = [r for r in rec if len(r["events"]) == r["_backedges"] == len(r["x"]) - 1]
+    info = {"calls_recorded": len(rec), "calls_with_snapshots": len(anchored), "loop_iterations_validated": sum(len(r["events"]) for r in anchored),
+            "links": {k: sum(1 for r in anchored if r["link"] == k) for k in ("single", "complete", "centroid", "average")},
+            "what": "every iteration of the four linkage loops of clustering.py on integer layouts in 0..40 with rational thresholds (40% "
+                    "with an exact tie of a gap with the threshold): the label list and the running state (complete: first point of the "
+                    "cluster; centroid: cluster size; average: window start) read from the running frame at each back-edge must be "
+                    "reached by one SingleStep / CompleteStep / CentroidMerge / CentroidSplit / AverageStep of spec/Clustering.tla, and "
+                    "Return must find the returned labels; the float centroid is not logged, the machine's exact one must imply the "
+                    "logged decisions; note only"}
+    if len(anchored) < len(rec) // 2:
+        info["skipped"] = "the loop locals were not found in the frames of the linkage functions (rewritten): not applicable"
+        ctx.extra.setdefault("growth", {})["ClusteringSteps"] = info
+        return []
+    good = {"id": "s", "x": [0, 1, 5, 6], "tnum": 1, "tden": 2, "link": "complete",
+            "events": [{"labels": [0, 0], "anchor": 1, "size": 0, "win": 0}, {"labels": [0, 0, 1], "anchor": 3, "size": 0, "win": 0},
+                       {"labels": [0, 0, 1, 1], "anchor": 3, "size": 0, "win": 0}], "final": [0, 0, 1, 1]}
+    stale = dict(good, events=[good["events"][0], dict(good["events"][1], anchor=1), good["events"][2]])
+    rej = ctx.trace("Trace_ClusteringSteps", [{k: r[k] for k in ("id", "x", "tnum", "tden", "link", "events", "final")} for r in anchored], chunk=500,
+                    selftest=[(good, "ok"), (stale, "no-machine-step"), (dict(good, final=[0, 0, 1, 2]), "no-machine-step"),
+                              (dict(good, tnum=1, tden=1), "no-machine-step")])           # 5/6 < 1: point 3 would merge
+    mism = [{"case": cid, "clause": vs[0][0], "detail": [str(v)[:100] for v in vs[0][1:4]]} for cid, vs in rej.items()]
+    info.update(mismatches=len(mism), first_mismatches=mism[:3])
+    ctx.extra.setdefault("growth", {})["ClusteringSteps"] = info
+    for m in mism[:3]:
+        print("GROWTH-MISMATCH module=ClusteringSteps %s" % m)
+    return mism
+
 def _mk_proj(loc):
     if "stack" in loc and "knees" in loc:
         return {"stack": [[int(a), int(b)] for a, b in loc["stack"]], "knees": [int(k) for k in loc["knees"]]}
